@@ -21,7 +21,6 @@ TOP_LEVEL = {
     f'{UP}:AggregatedProgressCallback.__call__': 'progress callback', f'{UP}:AggregatedProgressCallback.flush': 'close callback',
     f'{BW}:BandwidthLimitedStream.read': 'called by botocore / the chunk reader through the file interface',
     # public API
-    f'{MG}:TransferManager._submit_transfer': 'called by the public upload/download/copy/delete methods only',
     f'{CRT}:CRTTransferManager._submit_transfer': 'called by the public upload/download/delete methods only',
 }
 
@@ -42,6 +41,7 @@ def register(R):
     setm(f'{UT}:set_default_checksum_algorithm', lambda c: map_locs(c.a_extra_args))
     setm(f'{BW}:BandwidthLimitedStream._consume_through_leaky_bucket', lambda c: [('f', c.self, '_bytes_seen')])
     setm(f'{PP}:ProcessPoolDownloader._shutdown', lambda c: [('f', c.self, '_started')])
+    setm(f'{MG}:TransferManager._submit_transfer', lambda c: [('f', c.self, '_id_counter')])
     # path downloads append their rename handler to the request's before-list
     setm(f'{CRT}:S3ClientArgsCreator._get_make_request_args_get_object', lambda c: [('i', c.a_on_done_before_calls)])
 
